@@ -75,11 +75,13 @@ theorem current_is_highest (hi : H.Inj D) (s : Store) (w : WF H D s) (comp : Str
       r.comp = comp ∧ r.hash = H.hash c.content ∧ r.spec = c.content.spec ∧ r.labels = c.content.labels ∧
       r.ctrl = some c.uid ∧
       ∀ r' ∈ (run sem plan 0 (reconcile H comp) s).1.revs, r'.comp = comp → r'.name ≠ r.name → r'.num < r.num := by
-  have hp := reconcile_safe hi comp s w
+  have hp := reconcile_safe hi comp s w false (fun h => by cases h)
   have hcn : c.name = comp := find_name (f := Comp.name) hc
   have post : ∀ res, (run sem plan 0 (reconcile H comp) s).2 = some res → (res = .done ∨ res = .created) →
-      Good H c (run sem plan 0 (reconcile H comp) s).1 :=
-    fun res hres hr => safeP_run sem (WF H D) Le _ plan 0 _ s hp res hres hr c hc hd
+      Good H c (run sem plan 0 (reconcile H comp) s).1 := by
+    intro res hres hr
+    obtain ⟨_, hb⟩ := safeP_run sem (WF H D) Le _ plan 0 _ _ s hp res hres
+    exact hb.2 hr c hc hd
   have g : Good H c (run sem plan 0 (reconcile H comp) s).1 := by
     rcases hok with h | h
     · exact post _ h (Or.inl rfl)
@@ -111,6 +113,24 @@ theorem one_rev_per_content (hi : H.Inj D) (s : Store) (w : WF H D s) (comp : St
     w'.name_of_hash hi hx hr' (hxc.trans (e2.trans g1).symm) (hxh.trans (e3.trans g2).symm)
   exact eq_of_name_eq w'.names hx hr' hn
 
+/-- **Progress**: a reconcile that meets no fault returns without error — unless a
+revision of the Composition is controlled by somebody else, which makes every
+reconcile fail by design. Together with `one_rev_per_content` and
+`current_is_highest`: one fault-free reconcile after an edit captures the new
+content. (This is where the collision-freedom of the 7-character name prefix is used.) -/
+theorem reconcile_succeeds_without_faults (hi : H.Inj D) (s : Store) (w : WF H D s) (comp : String) (c : Comp)
+    (hc : s.comps.find? (·.name = comp) = some c)
+    (hown : ∀ x ∈ s.revs, x.comp = comp → x.ctrl = none ∨ x.ctrl = some c.uid) :
+    (run sem Plan.allOk 0 (reconcile H comp) s).2 = some .done ∨
+    (run sem Plan.allOk 0 (reconcile H comp) s).2 = some .created := by
+  have hcn : c.name = comp := find_name (f := Comp.name) hc
+  have hp := reconcile_safe hi comp s w true (fun _ c' hc' x hx hxc => by
+    rw [hc] at hc'; cases hc'; exact hown x hx (hxc.trans hcn))
+  obtain ⟨a, ha, hpost⟩ := safeP_run_allOk sem (WF H D) Le _ 0 _ _ s hp
+  rcases hpost.1 rfl with e | e
+  · exact Or.inl (e ▸ ha)
+  · exact Or.inr (e ▸ ha)
+
 /-! ### XR side -/
 
 /-- **An XR with the Manual policy keeps using the revision it references**: under
@@ -124,9 +144,10 @@ theorem manual_pins (s : Store) (n : String) (x : XR) (p : String)
   constructor
   · intro s' hs'
     exact (safeP_reach sem (fun s' => s' = s) (fun _ _ => True) _ (fun _ => trivial) (fun _ _ _ _ _ => trivial)
-      plan 0 _ s rfl (fetch_manual_safe s n x p hx hpol href) s' hs').1
+      plan 0 _ _ s rfl (fetch_manual_safe s n x p hx hpol href) s' hs').1
   · intro r hr
-    have := safeP_run sem _ _ _ plan 0 _ s (fetch_safe s n) (.rev r) hr r rfl x hx
+    obtain ⟨_, hb⟩ := safeP_run sem _ _ _ plan 0 _ _ s (fetch_safe s n) (.rev r) hr
+    have := hb r rfl x hx
     simp only [hpol, href] at this
     exact ⟨find_name (f := Rev.name) this.2, this.2⟩
 
@@ -146,9 +167,10 @@ theorem automatic_follows_highest_controlled (s : Store) (n : String) (x : XR)
       xrRef (run sem plan 0 (fetch n) s).1 x.name = some r.name) ∧
     (run sem plan 0 (fetch n) s).1.revs = s.revs ∧ (run sem plan 0 (fetch n) s).1.comps = s.comps := by
   have hp := fetch_safe s n
-  have hpost := safeP_run sem _ _ _ plan 0 _ s hp (.rev r) hr r rfl x hx
+  obtain ⟨_, hb⟩ := safeP_run sem _ _ _ plan 0 _ _ s hp (.rev r) hr
+  have hpost := hb r rfl x hx
   have hinv := (safeP_reach sem (FetchInv s) (fun a b => b.revs = a.revs) _ (fun _ => rfl)
-    (fun _ _ _ h1 h2 => h2.trans h1) plan 0 _ s ⟨rfl, rfl⟩ hp _ (run_mem_reach sem plan 0 (fetch n) s)).1
+    (fun _ _ _ h1 h2 => h2.trans h1) plan 0 _ _ s ⟨rfl, rfl⟩ hp _ (run_mem_reach sem plan 0 (fetch n) s)).1
   refine ⟨?_, hinv.1, hinv.2⟩
   split at hpost
   · rename_i p hp1 hp2; exact absurd hp2 (hnot p hp1)
@@ -227,8 +249,17 @@ example : WF HW DW ⟨[comp0 cA], [], []⟩ where
   pos := fun _ h => by cases h
   nums := fun _ h => by cases h
 
+theorem HW_name_inj : ∀ n c n' c', DW c → DW c' → HW.name n c = HW.name n' c' → n = n' ∧ c = c' := by
+  intro n c n' c' h h' e
+  rcases h with h | h | h <;> rcases h' with h' | h' | h' <;> subst h <;> subst h' <;>
+    (simp only [HW] at e
+     have := append_inj_of_len _ _ _ _ (by decide) e
+     first
+     | exact ⟨this.1, rfl⟩
+     | exact absurd this.2 (by decide))
+
 /-- the naming is collision-free on its three contents -/
-example : HW.Inj DW := ⟨HW_hash_inj⟩
+theorem HW_inj : HW.Inj DW := ⟨HW_hash_inj, HW_name_inj⟩
 
 def abaHistory : List Ev :=
   [.reconcile "comp" Plan.allOk, .putComp (comp0 cB), .reconcile "comp" Plan.allOk,
@@ -244,6 +275,36 @@ retry: the numbers are untouched and the revision of A is still the highest -/
 example : (runHist HW (abaHistory ++ [.putComp ⟨"comp", 7, cA, false⟩, .setCtrl ["comp-a", "comp-b"] none,
       .reconcile "comp" (Plan.at 2 .crashAfter), .reconcile "comp" Plan.allOk]) ⟨[comp0 cA], [], []⟩).revs.map
       (fun r => (r.name, r.num, r.ctrl)) = [("comp-a", 3, some 7), ("comp-b", 2, some 7)] := by decide
+
+theorem abaHistory_ok : ∀ e ∈ abaHistory, EvOK DW e := by
+  intro e he
+  simp only [abaHistory, List.mem_cons, List.mem_nil_iff, or_false] at he
+  rcases he with h | h | h | h | h <;> subst h <;> simp [EvOK, DW, comp0]
+
+def start0 : Store := ⟨[comp0 cA], [], []⟩
+
+theorem start0_wf : WF HW DW start0 where
+  comps := fun c h => by simp [start0] at h; subst h; exact Or.inl rfl
+  names := List.Pairwise.nil
+  faithful := fun _ h => by cases h
+  pos := fun _ h => by cases h
+  nums := fun _ h => by cases h
+
+/-- the hypotheses of the history theorems are met by the A-B-A history (whose
+stores are non-trivial, see above) -/
+example : (reachHist HW abaHistory start0).Pairwise fun a b =>
+    ∀ r ∈ a.revs, ∃ r' ∈ b.revs, r'.name = r.name ∧ r.num ≤ r'.num :=
+  numbers_monotone HW_inj abaHistory start0 start0_wf abaHistory_ok
+
+/-- … and those of `current_is_highest` / `reconcile_succeeds_without_faults` by its
+last reconcile (the revert to A, where revision `comp-a` goes 1 → 3) -/
+example : ∃ s c, WF HW DW s ∧ s.comps.find? (·.name = "comp") = some c ∧ c.deleting = false ∧
+    s.revs.map (fun r => (r.name, r.num)) = [("comp-a", 1), ("comp-b", 2)] ∧
+    (run sem Plan.allOk 0 (reconcile HW "comp") s).2 = some .done :=
+  ⟨runHist HW (abaHistory.take 4) start0, comp0 cA,
+   (reachHist_ok HW_inj (abaHistory.take 4) start0 start0_wf
+      (fun e he => abaHistory_ok e (List.mem_of_mem_take he))).2.2,
+   by decide, rfl, by decide, by decide⟩
 
 /-! ### defect D4: the ordering of the unchanged tree violates the property -/
 
